@@ -17,12 +17,17 @@ import (
 // (C10) and the server batch runner (C11, C05). The peers are /bin/sh scripts.
 
 // VerifOSClientSpec: runClient(runCommand(sh -c Script)); Small small requests are sent one after
-// the other, then (if BigBytes > 0) one request of that size, all from one goroutine.
+// the other, then (if BigBytes > 0) one request of that size, all from one goroutine.  The first
+// request is sent DelayMs after the start of the process and the sender pauses GapMs between two
+// requests: a client that exits early is then certainly gone when the next request is written to it
+// (without the pauses everything may sit in the kernel's pipe buffer before the process has exited).
 type VerifOSClientSpec struct {
 	Script   string `json:"script"`
 	Small    int    `json:"small"`
 	BigBytes int    `json:"bigBytes"`
 	TimeoutS int    `json:"timeoutS"`
+	DelayMs  int    `json:"delayMs,omitempty"`
+	GapMs    int    `json:"gapMs,omitempty"`
 }
 
 type VerifOSClientObs struct {
@@ -71,7 +76,13 @@ func VerifOSClient(spec VerifOSClientSpec) VerifOSClientObs {
 	done := make(chan struct{})
 	go func() {
 		defer close(done)
+		if spec.DelayMs > 0 && spec.DelayMs <= 5000 {
+			time.Sleep(time.Duration(spec.DelayMs) * time.Millisecond)
+		}
 		for i := 0; i < n; i++ {
+			if i > 0 && spec.GapMs > 0 && spec.GapMs <= 5000 {
+				time.Sleep(time.Duration(spec.GapMs) * time.Millisecond)
+			}
 			req := &conformancev1.ClientCompatRequest{TestName: VerifC10Name(i)}
 			if i == spec.Small && spec.BigBytes > 0 {
 				req.ServerTlsCert = make([]byte, spec.BigBytes)
@@ -104,9 +115,11 @@ func VerifOSClient(spec VerifOSClientSpec) VerifOSClientObs {
 		}
 		mu.Unlock()
 	}()
+	dog := VerifNewDog(spec.TimeoutS)
+	defer dog.Stop()
 	select {
 	case <-done:
-	case <-time.After(time.Duration(spec.TimeoutS) * time.Second):
+	case <-dog.C:
 		mu.Lock()
 		obs.Hang = true
 		if obs.Wait == "" {
@@ -206,9 +219,11 @@ func VerifOSServerBatch(spec VerifOSServerSpec) VerifOSServerObs {
 			verifNopPrinter{}, verifNopPrinter{}, results, client, nil, false)
 	}()
 	var obs VerifOSServerObs
+	dog := VerifNewDog(spec.TimeoutS)
+	defer dog.Stop()
 	select {
 	case <-done:
-	case <-time.After(time.Duration(spec.TimeoutS) * time.Second):
+	case <-dog.C:
 		obs.Hang = true
 	}
 	obs.ElapsedMs = time.Since(t0).Milliseconds()
